@@ -963,6 +963,9 @@ def run(tier: str) -> int:
     # ---- V
     run_v(o, 1500 if thorough else 150, 300 if thorough else 25)
     o.extra["violation_counts"] = counts
+    if tier == "thorough":  # inductive invariants of the design (Apalache; harness/apalache.py)
+        import apalache
+        common.with_engine(o, "inductive", lambda: apalache.extend(o, tier, PID))
     return o.finish()
 
 
